@@ -11,6 +11,7 @@ from vt.util import V, case_rng, rng_for
 PROPERTY = "C14"
 TITLE = "Interactions, cross sections, event trees"
 NEEDS_ICONTRACT = True
+TECHNIQUE = ("runtime monitoring: icontract post-condition on Interaction.__init__ over every generated interaction (also while the repository's own tests run), statistical oracles on recorded draws, cross-section ladders incl. a re-assigned particle, event-tree histories against a dict-of-lists model")
 ANCHORS = ["pyrex.particle:Interaction.__init__", "pyrex.particle:GQRSInteraction.choose_interaction", "pyrex.particle:CTWInteraction.choose_interaction",
            "pyrex.particle:GQRSInteraction.choose_inelasticity", "pyrex.particle:CTWInteraction.choose_inelasticity",
            "pyrex.particle:GQRSInteraction.choose_shower_fractions", "pyrex.particle:GQRSInteraction._choose_secondary_fractions",
@@ -64,6 +65,7 @@ def gen_cases(tier, seed):
     ntree = 300 if tier == "quick" else 6000
     for i in range(ntree):
         out.append({"cls": "tree", "salt": int(rng.integers(0, 2**31))})
+    out.append({"cls": "repo-suite", "files": ['tests/test_particle.py', 'tests/test_generation.py', 'tests/test_kernel.py']})      # the repository's own tests as one more workload for the contract
     return out
 
 
@@ -242,6 +244,18 @@ def run_tree(case, v):
 
 
 def run_case(case):
+    if case["cls"] == "repo-suite":
+        from vt import suite
+        v_ = V()
+        rep = suite.run("c14", case["files"])
+        evals = sum(sum(x for x in d.values() if isinstance(x, int)) for d in rep.get("contract_evaluations", {}).values())
+        v_.events += evals
+        for f_ in rep.get("contract_failures", []):
+            v_.check(False, "contract holds while the repository's own tests run", test=f_["test"], message=f_["message"])
+        sample_ = {"workload": "repository test files under the contract", "files": rep.get("files"), "tests_collected": rep.get("collected"), "contract_evaluations": evals, "pytest": rep.get("tail")}
+        if rep.get("returncode") != 0 and not rep.get("contract_failures"):
+            return v_.result(decided=False, nontrivial=False, sample=sample_, skip="repository tests did not pass under the plugin")
+        return v_.result(decided=True, nontrivial=evals >= 50, sample=sample_)
     v = V()
     kind = case["cls"].split(":")[0]
     sample, nontrivial = {"draws": run_draws, "xsec": run_xsec, "tree": run_tree}[kind](case, v)
